@@ -21,7 +21,7 @@ PROP = dict(
         "saturating_site_exact_iff", "saturating_sites_refuted", "f2dot14_within_quantum", "f2dot14_refuted",
         "narrow_arith_profiles_agree_iff", "checked_site_never_wraps", "width_class_checked",
         "variation_instance_exact_iff",
-        "glyf_outline_never_wrapped", "glyf_seam_step_checked", "glyf_outline_emitted_iff", "glyf_profiles_agree",
+        "glyf_outline_never_wrapped", "glyf_every_point_checked", "glyf_seam_step_checked", "glyf_outline_emitted_iff", "glyf_profiles_agree",
         "component_fallback_preserves_shape", "flattened_scale_refuted",
         "composite_totals_exact_or_rejected", "composite_totals_u32_refuted",
         "font_profiles_agree", "font_profiles_agree_bounded",
@@ -32,7 +32,7 @@ PROP = dict(
     harness_args=lambda tier, seed: ["--seed", str(seed), "--n", str(N[tier]), "--tier", tier],
     shard=40,
     rule="boundary sources: for every narrowed field (advance width/height, outline coordinate and successive "
-         "difference inside a contour and across a contour seam (two and three contours, both signs, x and y; glyf outlines are decoded by hand with unbounded running sums, not through read-fonts), component offset, component 2x2 entry plain and after --flatten-components, composite box, "
+         "difference inside a contour and across a contour seam (two and three contours, both signs, x and y; glyf outlines are decoded by hand with unbounded running sums, not through read-fonts), off-curve control point of a quadratic segment and of a cubic segment through cu2qu (outside i16 while the on-curve points and the curve stay inside; both signs, x and y; default and non-default master; emitted points compared with on/off flags), component offset, component 2x2 entry plain and after --flatten-components, composite box, "
          "kerning value, anchor coordinate, hhea line metrics, vertical origin, top side bearing, HVAR/gvar deltas, "
          "points per glyph, composite point totals, glyph count (thorough), WidthClass) the values limit-1, limit, "
          "limit+fractions, limit+1, far beyond, on both signs, plus seeded draws (half within +-3 of a limit in "
@@ -46,7 +46,10 @@ PROP = dict(
                   "decoders in it, read-fonts (HVAR) and skrifa (gvar instances)"],
     assumptions=["f64 is modelled by Q; generated values are multiples of 1/4 (2^-16 for 2x2 entries), for which "
                  "x+0.5 and x*16384 are exact in f64",
-                 "outlines are closed contours of on-curve points (no curve conversion)",
+                 "outlines in the model are closed contours given as the list of all their points (on- and off-curve); "
+                 "correspondence for curves is checked on contours whose first segment is a line and whose control "
+                 "points are single quadratic ones; cubic segments go through kurbo's cu2qu, which is not modelled: for "
+                 "them only the predicate is evaluated, against the harness' own call of kurbo's converter",
                  "composites in the font-level model have depth one; nested composites only through the flattening model",
                  "the first failing job decides the outcome; sources with several independent failures are not generated",
                  "NaN/infinite source values are outside the model",
